@@ -1223,6 +1223,10 @@ class ItemSpaceParent(ItemFactoryImpl, BaseNamespaceReferrer, HasFormula):
                 self.altfunc = BoundFunction(self)
                 self.altfunc.notify()
             else:
+                if not isinstance(formula, ParamFunc):
+                    # A malformed formula raises here, before the current
+                    # formula and its ItemSpaces are discarded
+                    formula = ParamFunc(formula, name="_formula")
                 self.del_formula()
                 self.set_formula(formula)
 
